@@ -171,6 +171,43 @@ _STR_FOLDS = frozenset((".lower", ".upper", ".strip", ".lstrip", ".rstrip",
                         ".capitalize", ".removeprefix", ".removesuffix"))
 
 
+def _generator_as_genexp(fn: ast.FunctionDef) -> Optional[ast.GeneratorExp]:
+    """the generator expression a simple generator function stands for:
+    one `for` loop whose body is guard clauses (`if c: continue`) followed by
+    a single (possibly conditional) `yield e`"""
+    body = [st for st in fn.body if not (
+        isinstance(st, ast.Expr) and isinstance(st.value, ast.Constant))]
+    if len(body) != 1 or not isinstance(body[0], ast.For) or body[0].orelse:
+        return None
+    loop = body[0]
+    conds: list = []
+    elt = None
+    for k, st in enumerate(loop.body):
+        last = k == len(loop.body) - 1
+        if isinstance(st, ast.If) and not st.orelse and \
+                len(st.body) == 1 and isinstance(st.body[0], ast.Continue) \
+                and not last:
+            conds.append(ast.UnaryOp(op=ast.Not(), operand=st.test))
+        elif last and isinstance(st, ast.Expr) and \
+                isinstance(st.value, ast.Yield) and st.value.value is not None:
+            elt = st.value.value
+        elif last and isinstance(st, ast.If) and not st.orelse and \
+                len(st.body) == 1 and isinstance(st.body[0], ast.Expr) and \
+                isinstance(st.body[0].value, ast.Yield) and \
+                st.body[0].value.value is not None:
+            conds.append(st.test)
+            elt = st.body[0].value.value
+        else:
+            return None
+    if elt is None:
+        return None
+    g = ast.GeneratorExp(elt=elt, generators=[ast.comprehension(
+        target=loop.target, iter=loop.iter, ifs=conds, is_async=0)])
+    ast.copy_location(g, loop)
+    ast.fix_missing_locations(g)
+    return g
+
+
 def _own_jumps(body) -> bool:
     """does a loop body contain a break / continue of *this* loop (jumps
     inside nested loops belong to those)"""
@@ -2151,6 +2188,14 @@ class Interp:
             else:
                 argenv[p] = tm.unknown(f"missing arg {p}")
         newf = self._make_frame(target, argenv, self_cls, frame.depth + 1)
+        if any(isinstance(n, (ast.Yield, ast.YieldFrom))
+               for st in target.node.body for n in ast.walk(st)):
+            # a generator function: `for x in it: [if c: continue] yield e`
+            # is the generator expression (e for x in it if not c)
+            gen = _generator_as_genexp(target.node)
+            if gen is None:
+                return tm.unknown(f"generator {target.qualname}")
+            return self.eval(gen, newf, live)
         self.stack.append(target.qualname)
         try:
             out = self.exec_block(target.node.body, newf, live)
